@@ -99,6 +99,21 @@ def make_case(seed, i, tier='quick'):
     rng = random.Random('fvmon/C15/%s/%s' % (seed, i))
     desc = gw.gen(rng, whole_col=(tier != 'quick' and i % 4 == 0))
     readers = gw.add_adjacent_arrays(rng, desc) if i % 3 == 1 else []
+    if i % 3 == 2:
+        # formula-valued names over another book / over a sheet that does not
+        # exist, and cells reading them (the names must be followed too)
+        bb = len(desc['books']) - 1
+        bk = desc['books'][bb]['name']
+        desc['names']['ADJ_1'] = ['val', 0, ['bin', '*', ['cell', bb, 0, 1, 1], ['lit', 2.0]]]
+        desc['names']['ADJ_GONE'] = ['val', 0, ['bin', '*', [
+            'raw', 'Gone!$A$1', "'[%s]Gone'!$A$1" % bk], ['lit', 2.0]]]
+        s0 = len(desc['books'][0]['sheets']) - 1
+        rd = desc['books'][0]['sheets'][s0]['cells']
+        rd['M3'] = {'f': ['bin', '+', ['name', 'ADJ_1'], ['lit', 1.0]]}
+        rd['M4'] = {'f': ['call', 'IFERROR', [['bin', '+', ['name', 'ADJ_GONE'], ['lit', 1.0]],
+                                             ['lit', -1.0]]]}
+        readers = [(0, s0, 13, 3), (0, s0, 13, 4)]
+        desc['formula_cells'] = list(desc.get('formula_cells', [])) + [list(k) for k in readers]
     ev = rw.Evaluator(desc)
     forms = wbrun.formula_cells(desc)
     anchors = [k for k in wbrun.formula_cells(desc, with_arrays=True) if k not in forms]
